@@ -259,6 +259,12 @@ def runDyn (c : Case) : List String := Id.run do
         if cs.contains '?' then out := s!"verdict BAD {qi} certificate names an argument that is not in the current framework" :: out
         else
           let a : Answer := .acc st (if cs == "-" then none else some (parseExt cs))
+          -- the reference deciders are exponential: larger frameworks are covered by the trace
+          -- correspondence with the (proved) dynamic solver models only
+          if af.n > 12 then
+            out := (if members then s!"verdict unjudged {qi}"
+              else s!"verdict BAD {qi} certificate members are not the current framework's arguments (stale id)") :: out
+          else
           match checkAnswer af { qq with args := [dense] } a with
           | .ok _ =>
             if members then out := s!"verdict ok {qi}" :: out
